@@ -42,7 +42,7 @@ def structural_cases(tier, rng):
 
 def long_cases(tier, rng):
     out = []
-    sizes = [1000, 4096, 65536] if tier == "quick" else [1000, 4096, 16384, 65536, 262144]
+    sizes = [1000, 4096, 65536] if tier == "quick" else [1000, 4096, 16384, 65536, 262144, 1048576]
     units = [b"a.", b"@", b'"', b"\\", b"0.", b":", b"1:", b"a", b"ab.", "а".encode(), "а.".encode(), b"\r\n ", b'"a".', b"]", b"[", b"a-", b"\xff",
              b"-", b"_", b" "]
     for n in sizes:
@@ -53,6 +53,11 @@ def long_cases(tier, rng):
         for _ in range(4 if tier == "quick" else 20):
             out.append(gen.rand_bytes(rng, n))
             out.append(gen.rand_bytes(rng, n // 2) + b"@" + gen.rand_bytes(rng, n // 2))
+    if tier == "quick":
+        # a few inputs well beyond 64 KiB also in the quick tier (int/size_t width, buffer-size assumptions)
+        for u in (b"a.", b"1:", "а".encode(), b'"a".', b"\xff", b"a"):
+            body = (u * (300000 // len(u) + 1))[:300000]
+            out += [body + b"@a.bc", b"x@" + body, b"x@[" + body + b"]", b'"' + body + b'"@a.bc']
     return [o for o in out if b"\x00" not in o]
 
 
@@ -101,7 +106,7 @@ def w_mem(exe, cases, variant):
 
 def w_memcheck(exe, cases):
     part = new_part()
-    lines = [driver.A_line(a, sections=3) for a in cases] + ["S 2", "S 77"]
+    lines = [driver.A_line(a, sections=3 | 16 | 32 if i % 4 == 0 else 3) for i, a in enumerate(cases)] + ["S 2", "S 77"]
     data = ("\n".join(lines) + "\nQ\n").encode()
     cmd = ["valgrind", "--tool=memcheck", "-q", "--error-exitcode=68", "--track-origins=yes", "--leak-check=full",
            "--errors-for-leak-kinds=definite,indirect", exe]
@@ -291,6 +296,8 @@ def main(tier, seed):
     mc = AG.LOCAL_CORE[:0] + [l + b"@" + d for l in AG.LOCAL_CORE[:12] for d in AG.DOMAIN_CORE[::9]] + mc[:250 if tier == "quick" else 3000]
     for i in range(0, len(mc), 120):
         jobs.append((w_memcheck, (plain0, mc[i:i + 120])))
+    plain0x = cx.exe("plain-O0-extra", san="plain-O0", defs=["EAV_EXTRA"])
+    jobs.append((w_memcheck, (plain0x, mc[:120])))
     jobs.append((w_poison, (asan, mc)))
     # allocation ledger
     pool = [a for a in corpus if len(a) < 300][seed % 11::11][:400]
